@@ -238,6 +238,13 @@ func (g *zzGenState) dBytes(name string, n int) []byte {
 	return zzBytes(name, n)
 }
 
+// chr: the character domain of UTF-8 strings: printable ASCII without the
+// topic wildcards '#' and '+' (a library that validates UTF-8, refuses
+// control characters, or refuses wildcards in topic names stays quiet).
+func (g *zzGenState) chr(c byte) bool {
+	return zzAnd(zzAnd(c >= 0x20, c <= 0x7e), zzAnd(c != '#', c != '+'))
+}
+
 // content returns n content bytes. Up to 24 bytes all are symbolic; longer
 // contents have 4 symbolic bytes at each end and concrete filler between.
 func (g *zzGenState) content(name string, n int, utf8 bool) []byte {
@@ -254,7 +261,7 @@ func (g *zzGenState) rawContent(name string, n int, utf8 bool) []byte {
 		b = g.dBytes(name, n)
 		if utf8 {
 			for i := range b {
-				g.dom = zzAnd(g.dom, zzAnd(b[i] >= 1, b[i] <= 0x7f))
+				g.dom = zzAnd(g.dom, g.chr(b[i]))
 			}
 		}
 		return b
@@ -267,8 +274,8 @@ func (g *zzGenState) rawContent(name string, n int, utf8 bool) []byte {
 	t := g.dBytes(name+".tail", 4)
 	for i := 0; i < 4; i++ {
 		if utf8 {
-			g.dom = zzAnd(g.dom, zzAnd(h[i] >= 1, h[i] <= 0x7f))
-			g.dom = zzAnd(g.dom, zzAnd(t[i] >= 1, t[i] <= 0x7f))
+			g.dom = zzAnd(g.dom, g.chr(h[i]))
+			g.dom = zzAnd(g.dom, g.chr(t[i]))
 		}
 		b[i] = h[i]
 		b[n-4+i] = t[i]
